@@ -143,6 +143,27 @@ def legacy_abort_covers_every_use_of_the_id(ctx):
                         covered = True
         ctx.ob(f, f'{dotted(c.func) or short(c.func)}(... upload_id ...)', covered, 'a failure of this call leaves the multipart upload open (no abort is issued): it is outside the aborting try', node=c)
 
+    # the abort is issued only after the part-upload pool has been joined: it is not nested in the `with <executor>` block
+    # whose pool runs the parts (seeded C05-Q: the pool was moved into upload_file around the aborting try, so queued parts
+    # were still sent after the abort and left an orphaned upload behind).  Judged on the expanded function as well.
+    n_pools = 0
+    for view, vf in ((ctx, f), (ctx.expanded(), ctx.expanded().func('__init__.MultipartUploader.upload_file'))):
+        for w in own_nodes(vf.node):
+            if not isinstance(w, ast.With):
+                continue
+            pooled = [it for it in w.items if isinstance(it.context_expr, ast.Call) and (
+                'executor' in norm(it.context_expr.func).lower()
+                or (isinstance(it.optional_vars, ast.Name) and any(isinstance(x, ast.Call) and isinstance(x.func, ast.Attribute) and x.func.attr in ('map', 'submit')
+                                                                     and norm(x.func.value) == it.optional_vars.id for x in ast.walk(w))))]
+            if not pooled:
+                continue
+            n_pools += 1
+            inside = [x for x in ast.walk(w) if isinstance(x, ast.Call) and (dotted(x.func) or '').endswith('abort_multipart_upload')]
+            ctx.ob(f, f'abort after the pool `{short(pooled[0].context_expr, 40)}` is joined ({"expanded" if view is not ctx else "as written"})', not inside,
+                   'abort_multipart_upload is issued inside the with-block of the part-upload pool: parts still queued or in flight are sent after the abort '
+                   'and re-create an orphaned upload', node=(inside[0] if inside else w))
+    ctx.need(n_pools >= 1, 'the legacy part-upload pool (a with-block over the executor) was not found in upload_file, expanded')
+
 
 @rule('C05.f', ['C05'], floor=3)
 def abort_request_is_well_formed(ctx):
